@@ -280,7 +280,9 @@ func (fe *FuncEnc) execBlock(f *Frame, b *ssa.BasicBlock, st *State, reach Term,
 		case *ssa.Panic:
 			fe.emit("safety.panic", fe.srcLabel(x.Pos(), "call"), reach, tBool(false), "explicit panic", x.Pos())
 		default:
+			f.curInstr = in
 			fe.step(f, in, st, reach)
+			f.curInstr = nil
 		}
 	}
 }
